@@ -311,7 +311,7 @@ func (u *Unit) checkReturn(f *Frame, rst *State, rets []Val) {
 	} else if rootFn(fn).Pkg != nil {
 		penv.pkg = rootFn(fn).Pkg.Pkg
 	}
-	penv.lookup = func(name string) (TV, bool) {
+	penv.lookup = func(penv *Env, name string) (TV, bool) {
 		if tv, ok := extra[name]; ok {
 			return tv, true
 		}
